@@ -37,6 +37,7 @@ STUBS = B.STUBS + [
     "float()/int() inside pde.backends.numba.grids and backend: identity / fork over the feasible integer values",
 ]
 OUTSIDE = ["3-axis interpolation is explored per axis and on a 2x2x2 grid only", "points within round-off of the domain boundary"]
+CASE_TIMEOUT = 3600
 BOUNDS = {"max_paths": 3000, "tmax": 600.0, "query_timeout_ms": 20000, "max_int_fork": 40}
 EXPLANATION = "all index/weight branches of the real interpolation code for a symbolic point; per path the value is compared with the multilinear reference for all data"
 SC = 4096
@@ -357,7 +358,8 @@ def cases(tier, seed):
         out.append({"name": f"centres-affine:{g}", "scenario": "scenario_centres_affine", "cfg": {"grid": g}})
         out.append({"name": f"insert:{g}", "scenario": "scenario_insert", "cfg": {"grid": g}})
     if not q:
-        out.append({"name": "interpolate:cart3:fill=None", "scenario": "scenario_interpolate", "cfg": {"grid": "cart3", "fill": None, "spread": 0}, "bounds": {"max_paths": 6000, "tmax": 1500}})
+        for part in itertools.product((0, 1), repeat=3):
+            out.append({"name": f"interpolate:cart3:fill=None:part{''.join(map(str, part))}", "scenario": "scenario_interpolate", "cfg": {"grid": "cart3", "fill": None, "spread": 0, "part": list(part)}, "bounds": {"max_paths": 6000, "tmax": 3000, "path_timeout": 300.0}})
     out.append({"name": "centres-affine:cart3", "scenario": "scenario_centres_affine", "cfg": {"grid": "cart3"}})
     out.append({"name": "insert:cart3", "scenario": "scenario_insert", "cfg": {"grid": "cart3"}})
     out.append({"name": "interpolate:cart2:rank1", "scenario": "scenario_interpolate", "cfg": {"grid": "cart2", "rank": 1, "fill": None}})
